@@ -288,7 +288,7 @@ func (w *World) atomsInto(fi *FuncInfo, fd *funcDefs, e ast.Expr, a *Atoms, seen
 						if call, ok := d.(*ast.CallExpr); ok {
 							if name := calleeOfCall(info, call); name != "" && w.isNewName(name) {
 								// i-th result of a new function: that result only
-								w.atomsOfNewCall(w.Funcs[name], fd.tupleIx[o], a, depth)
+								w.atomsOfNewCall(astCallSite{fi, call}, w.Funcs[name], fd.tupleIx[o], a, depth)
 								continue
 							}
 						}
@@ -310,6 +310,18 @@ func (w *World) atomsInto(fi *FuncInfo, fd *funcDefs, e ast.Expr, a *Atoms, seen
 			}
 			// parameter of a new function: what its call sites pass
 			if sites, exprs, ok := w.argsBoundTo(o); ok && depth < 30 {
+				if np := w.newParams[o]; w.astCtxIndex(np.Key) >= 0 {
+					// reached through a particular call: that call's argument, in its caller's context
+					i := w.astCtxIndex(np.Key)
+					saved := w.astCtx
+					fr := saved[i]
+					w.astCtx = saved[:i]
+					if ex := argOfSite(fr.Site, np.Idx); ex != nil {
+						w.atomsInto(fr.Site.Fi, w.defsOf(fr.Site.Fi), ex, a, map[ast.Node]bool{}, depth+3)
+					}
+					w.astCtx = saved
+					return
+				}
 				for i, s := range sites {
 					w.atomsInto(s.Fi, w.defsOf(s.Fi), exprs[i], a, seen, depth+3)
 				}
@@ -369,7 +381,7 @@ func (w *World) atomsInto(fi *FuncInfo, fd *funcDefs, e ast.Expr, a *Atoms, seen
 		} else if w.isNewName(name) && depth < 30 {
 			// a new function: looked through (results; parameters are bound to call-site
 			// arguments when reached), not recorded as a call
-			w.atomsOfNewCall(w.Funcs[name], -1, a, depth)
+			w.atomsOfNewCall(astCallSite{fi, x}, w.Funcs[name], -1, a, depth)
 			return // (its arguments matter only where its parameters are used)
 		} else if tgt := w.Funcs[name]; w.deep.on && tgt != nil && tgt.Decl.Body != nil && isPredicateFn(tgt) && !w.deep.busy[name] && w.deep.depth < 2 {
 			// deep mode (decision fingerprints): what a gleece predicate returns and what it
@@ -672,7 +684,7 @@ func branchConds(fi *FuncInfo) []ast.Expr {
 }
 
 // atomsOfNewCall adds the atoms of what a new function returns (result idx, or all).
-func (w *World) atomsOfNewCall(tgt *FuncInfo, idx int, a *Atoms, depth int) {
+func (w *World) atomsOfNewCall(via astCallSite, tgt *FuncInfo, idx int, a *Atoms, depth int) {
 	if tgt == nil || w.newCallBusy[tgt.Key] {
 		return // (a new function that calls itself: already being looked through)
 	}
@@ -681,6 +693,9 @@ func (w *World) atomsOfNewCall(tgt *FuncInfo, idx int, a *Atoms, depth int) {
 	}
 	w.newCallBusy[tgt.Key] = true
 	defer delete(w.newCallBusy, tgt.Key)
+	// its parameters stand for the arguments of *this* call while it is looked through
+	w.astCtx = append(w.astCtx, astFrame{Site: via, Callee: tgt.Key})
+	defer func() { w.astCtx = w.astCtx[:len(w.astCtx)-1] }()
 	tfd := w.defsOf(tgt)
 	for _, e := range resultExprs(tgt, idx) {
 		w.atomsInto(tgt, tfd, e, a, map[ast.Node]bool{}, depth+5)
